@@ -7,6 +7,7 @@ use anyhow::{anyhow, Result};
 use ignore::{DirEntry, WalkParallel, WalkState};
 
 use std::path::{Path, PathBuf};
+use std::sync::atomic::{AtomicBool, Ordering};
 use std::sync::{mpsc, Arc};
 
 /// A trait to abstract how ast-grep discovers work Items.
@@ -151,6 +152,8 @@ fn run_worker<W: PathWorker + ?Sized + 'static, P: Printer>(
   let w = worker.clone();
   let walker = worker.build_walk()?;
   let processor = printer.get_processor();
+  let panicked = Arc::new(AtomicBool::new(false));
+  let has_panicked = panicked.clone();
   // walker run will block the thread
   std::thread::spawn(move || {
     let tx = tx;
@@ -159,6 +162,7 @@ fn run_worker<W: PathWorker + ?Sized + 'static, P: Printer>(
       let tx = tx.clone();
       let w = w.clone();
       let processor = &processor;
+      let panicked = panicked.clone();
       Box::new(move |result| {
         let Some(p) = filter_result(result) else {
           return WalkState::Continue;
@@ -169,12 +173,15 @@ fn run_worker<W: PathWorker + ?Sized + 'static, P: Printer>(
         verif_sched_delay(&p, 0);
         // A panic in one walker thread would leave the other threads of the parallel walk
         // (and with them the printing thread) waiting forever: turn it into a failed run.
+        // Stop the walk and let the printer finish what it has started (a JSON array, the
+        // terminal state of the interactive mode) before the process exits.
         let produced = std::panic::catch_unwind(std::panic::AssertUnwindSafe(|| {
           w.produce_item::<P>(&p, processor)
         }));
         let Ok(produced) = produced else {
           eprintln!("ERROR: ast-grep panicked while processing {}", p.display());
-          std::process::exit(101);
+          panicked.store(true, Ordering::Release);
+          return WalkState::Quit;
         };
         let Ok(items) = produced else {
           stats.add_skipped();
@@ -192,5 +199,9 @@ fn run_worker<W: PathWorker + ?Sized + 'static, P: Printer>(
       })
     });
   });
-  worker.consume_items(Items(rx), printer)
+  let ret = worker.consume_items(Items(rx), printer);
+  if has_panicked.load(Ordering::Acquire) {
+    std::process::exit(101);
+  }
+  ret
 }
